@@ -51,6 +51,8 @@ def _strategy():
         # application hands out the SAME lamp dict object every cycle (built once from the first cycle's lamps)
         "also_rx": st.sampled_from([False, False, True]),
         "persistent": st.booleans(),
+        # the application keeps ONE lamp dict and ONE trouble-code list and updates them in place before every cycle
+        "in_place": st.sampled_from([False, False, True]),
         "sa": st.sampled_from([0x28, 0x28, 0x00, 0x01, 0xCA, 0xFD]),
         "lat": st.lists(st.sampled_from([1e-6, 0.0002, 0.001, 0.005]), min_size=1, max_size=2),
         "eps": st.lists(st.sampled_from([0.0, 1e-5, 1e-3]), min_size=1, max_size=2),
@@ -189,6 +191,7 @@ class C16:
             supplied = []
             idx = [0]
             cb_dur = p.get("cb_dur", 0.0)
+            own_lamps, own_dtcs = {}, []
             own_rx = []
             keep = dict(p["cycles"][0]["lamps"])          # the application's own, persistent lamp dict
             keep0 = dict(keep)
@@ -205,6 +208,11 @@ class C16:
                 idx[0] += 1
                 lamps = keep if (p.get("also_rx") and p.get("persistent")) else dict(c["lamps"])
                 dtcs = dtcs_for(c["seed"], c["n"])
+                if p.get("in_place") and not (p.get("also_rx") and p.get("persistent")):
+                    own_lamps.clear()
+                    own_lamps.update(c["lamps"])
+                    own_dtcs[:] = dtcs
+                    lamps, dtcs = own_lamps, own_dtcs
                 supplied.append((w.sim.now, dict(lamps), [dict(d) for d in dtcs]))
                 if p.get("stop_mode") == "in_callback" and idx[0] == stop_at and not stopped_in_cb:
                     dm1.stop_send(cb)              # stop from inside the data callback: this cycle is the last one
